@@ -17,7 +17,7 @@ fixed pseudo-random octets (seeded).  Usage:
   bounded_tags.py --case '<json>'                                     -> replays one case, JSON on stdout
 """
 import sys, os, json, random, multiprocessing
-sys.path.insert(0, os.path.join(os.environ.get('NFCPY_REPO', '/repo'), 'src'))
+sys.path.insert(0, os.path.join(os.environ.get('NFCPY_REPO', os.environ.get('VERIF_REPO', '/repo')), 'src'))
 import logging
 logging.disable(logging.CRITICAL)
 from unittest import mock
